@@ -220,12 +220,13 @@ class V:
     """Symbolic value.  t: z3 term.  axes: () for a scalar.  series: index tag (None for ndarray/scalar).
     nan / inf: optional z3 Bool -- where the value may be NaN / +-infinite."""
 
-    __slots__ = ("t", "axes", "series", "nan", "inf", "meta")
+    __slots__ = ("t", "axes", "series", "nan", "inf", "meta", "view_of")
     __array_priority__ = 1000
 
     def __init__(self, t, axes=(), series=None, nan=None, inf=None, meta=None):
         if isinstance(t, V):
             raise TypeError("nested V")
+        self.view_of = None  # set by the theory entries that return a VIEW of another array (.values, .T, reshape)
         self.t = t if z3.is_expr(t) else to_term(t)
         self.axes = tuple(axes)
         self.series = series
